@@ -203,5 +203,46 @@ func repeatedAcquire(c *common.Ctx, r *common.Rand) error {
 	if id := pdb.VerifHaltLockID(); id != 0 {
 		pdb.ReleaseHaltLock(context.Background(), id)
 	}
+	// an acquire request that arrives while a local transaction is committing waits for it; the lock it is given
+	// carries the position after that transaction - the position the holder starts writing from
+	h := hist.NewOn(c, r.Fork(), hist.Config{PageSize: 512}, p.Store, p.Exits, dbName, nil, 0, false)
+	if im, err := lfs.ReadImage(filepath.Dir(pdb.DatabasePath())); err == nil {
+		h = hist.NewOn(c, r.Fork(), hist.Config{PageSize: im.PageSize}, p.Store, p.Exits, dbName, im, uint64(pdb.Pos().TXID), false)
+	}
+	var hl *litefs.HaltLock
+	var herr error
+	done := make(chan struct{})
+	h.Pager.BeforeCommit = func() {
+		h.Pager.BeforeCommit = nil
+		go func() {
+			defer close(done)
+			hl, herr = pdb.AcquireHaltLock(context.Background(), 41)
+		}()
+		time.Sleep(60 * time.Millisecond) // the request is now waiting for the write lock
+	}
+	before := pdb.Pos()
+	for tries := 0; tries < 300; tries++ {
+		st := h.GenStep()
+		if st.Op != "rtx" {
+			continue
+		}
+		st.Outcome, st.ToWAL, st.Spill = 0, false, 0
+		h.Exec(st)
+		break
+	}
+	select {
+	case <-done:
+		c.Evaluations++
+		c.Distinct("acquire-during-local-commit")
+		after := pdb.Pos()
+		rep2 := map[string]any{"kind": "halt-acquire-during-commit"}
+		if herr == nil && after.TXID == before.TXID+1 && hl.Pos != after {
+			c.Violate("C13:acquire-during-commit:position", fmt.Sprintf("a halt lock requested while a local transaction was committing (%s -> %s) was granted with position %s: the holder would start writing from there, not from the primary's position", before, after, hl.Pos), rep2)
+		}
+	case <-time.After(3 * time.Second):
+	}
+	if id := pdb.VerifHaltLockID(); id != 0 {
+		pdb.ReleaseHaltLock(context.Background(), id)
+	}
 	return nil
 }
